@@ -298,7 +298,7 @@ ROWS2 = [
     # ---- US customary / imperial leftovers
     ("circular_mil", ("pi", 16129, 10**14), A2, None, "pi/4 (0.001 in)^2"), ("cables_length", ("expr", 720 * sft), L, None, "120 fathoms (pint: survey fathom)"), ("square_survey_mile", ("expr", (5280 * sft) ** 2), A2, None, "HB 44"),
     ("square_league", ("expr", (3 * 5280 * sft) ** 2), A2, None, ""), ("acre_foot", ("expr", 43560 * sft**3), V3, None, "HB 44"), ("dry_barrel", ("expr", 7056 * inch**3), V3, None, "HB 44"), ("board_foot", ("expr", 144 * inch**3), V3, None, ""),
-    ("fifth", ("expr", gal / 5), V3, None, ""), ("shot", ("expr", 3 * gal / 256), V3, None, "3 tablespoons"), ("beer_barrel", ("expr", 31 * gal), V3, None, "US federal"), ("quarter", ("expr", 392 * lb), M, None, "28 stone"), ("bag", ("expr", 94 * lb), M, None, "cement"),
+    ("fifth", ("expr", gal / 5), V3, None, ""), ("shot", ("expr", 3 * gal / 256), V3, None, "3 tablespoons"), ("beer_barrel", ("expr", 31 * gal), V3, None, "US federal"), ("quarter", ("expr", 28 * lb), M, None, "imperial quarter: 28 lb = 2 stone = 1/4 long hundredweight"), ("bag", ("expr", 94 * lb), M, None, "cement"),
     ("UK_hundredweight", ("expr", 112 * lb), M, None, ""), ("UK_ton", ("expr", 2240 * lb), M, None, ""), ("US_hundredweight", ("expr", 100 * lb), M, None, ""), ("US_ton", ("expr", 2000 * lb), M, None, ""),
     ("imperial_minim", ("expr", ifloz / 480), V3, None, "UK WMA"), ("imperial_fluid_scruple", ("expr", ifloz / 24), V3, None, "UK WMA"), ("imperial_fluid_drachm", ("expr", ifloz / 8), V3, None, "UK WMA"),
     ("imperial_cup", ("expr", igal / 16), V3, None, "half an imperial pint"), ("imperial_barrel", ("expr", 36 * igal), V3, None, "UK"),
